@@ -4,6 +4,9 @@
 (*   [ev |-> "enc", type, v, ok, bytes, decoded]   value v was encoded (ok: accepted), the bytes     *)
 (*                                                 written, and what decoding those bytes gave       *)
 (*   [ev |-> "dec", type, bytes, ok, v, consumed]  an arbitrary byte string was decoded              *)
+(*   [ev |-> "bigenc", type, n, width, ok, head, total, same, consumed]  a container of n elements   *)
+(*                                                 of fixed width: the bytes in front of the first   *)
+(*                                                 element, the total length, the round trip         *)
 EXTENDS Wire, TLC, Json, IOUtils
 
 Rec == ndJsonDeserialize(IOEnv.TRACE)
@@ -30,9 +33,19 @@ DecExplained(e) ==
   /\ r.ok = e.ok
   /\ e.ok => (r.pos - 1 = e.consumed /\ (e.type = "tagged" \/ SameVal(t, r.v, e.v)))
 
+\* a container is its element count as a size, then the elements: Wire!Enc for "seq" / "dict" / "string", stated on the
+\* lengths alone so that it can be checked for counts far beyond what Enc can unfold
+BigExplained(e) ==
+  LET h == EncVarUInt(FromNat(e.n)) IN
+  /\ e.ok /\ h.ok
+  /\ e.head = h.bytes
+  /\ e.total = Len(h.bytes) + e.n * e.width
+  /\ e.same /\ e.consumed = e.total
+
 Step == /\ l <= Len(Rec)
         /\ CASE Rec[l].ev = "enc" -> EncExplained(Rec[l])
              [] Rec[l].ev = "dec" -> DecExplained(Rec[l])
+             [] Rec[l].ev = "bigenc" -> BigExplained(Rec[l])
              [] OTHER -> FALSE
         /\ l' = l + 1
 
